@@ -302,6 +302,19 @@ func dischargeAll(units []*Unit, timeoutS int, seed int, workDir string) {
 				case o.ExpectSat:
 					// cover goals that time out are not a vacuity proof; count as discharged-unknown
 					o.Result = "cover-unknown"
+					// quantified hypotheses keep solvers from answering "sat": look again without them. "unsat" there is
+					// a vacuity proof (fewer hypotheses); "sat" there is recorded as what it is.
+					r2 := solveOne(j.u.buildQueryOpt(o, true), 3, seed, workDir, fmt.Sprintf("q%04dr", j.n))
+					o.TimeS += r2.timeS
+					switch r2.answer {
+					case "unsat":
+						o.Result = "failed"
+						o.Solver = r2.solver
+						o.Output = "cover goal is unsatisfiable even without the quantified hypotheses (vacuous contract)\n" + r2.out
+					case "sat":
+						o.Result = "cover-sat-without-quantified-hypotheses"
+						o.Solver = r2.solver
+					}
 				case res.answer == "unsat":
 					o.Result = "discharged"
 				case res.answer == "sat":
